@@ -1,4 +1,5 @@
 """C20 - plots draw the analysis they are given (data handed to the drawing primitives)."""
+import ast
 from .. import terms as T
 from ..terms import C, NONE
 from .. import engine as E
@@ -14,7 +15,7 @@ def table(centre):
 
 
 def times_of(sig):
-    return T.call('arange', (C(0), T.div(T.length(sig) if sig[0] != 'param' else ('len', sig), FS), T.div(C(1), FS)))
+    return time_axis(T.length(sig) if sig[0] != 'param' else ('len', sig))
 
 
 def repo_eval(model, name, bound):
@@ -31,6 +32,8 @@ def check(rep, model, tier):
     rep.rule('SCHEMA', 'no plotting path reads a column that does not exist in the table of either centring')
     rep.rule('MASK-WINDOW', 'plot_burst_detect_summary highlights exactly [last side, next side] (inclusive) of the cycles labelled is_burst in the windowed table, offset by the '
                             'first plotted sample int(fs*xlim[0]) (0 without limits), on the windowed z-scored signal and its times')
+    rep.rule('WINDOW-END', 'limit_df keeps a cycle whose closing side is the sample at the closing limit while the windowed time axis stops one sample earlier: every index '
+                           'into the windowed times that comes from a cycle side is guarded (summary spans) or the cycle is removed first (parameter panel: next side < len(times))')
     rep.rule('PANEL-KEY', 'for each threshold key except min_n_cycles, in order, the panel on axes[k+1] plots column key-"_threshold" of the windowed table against thresholds[key]; '
                           'markers come from plot_cyclepoints_df(windowed table, full z-scored signal, fs, xlim) on axes[0]')
     rep.rule('PANEL-DATA', 'plot_burst_detect_param plots the parameter of the cycles inside the window at their centre-extremum times (interp) or from side to side (steps), '
@@ -39,10 +42,33 @@ def check(rep, model, tier):
                               'in the order peaks, troughs, rises, decays; plot_cyclepoints_df hands over the centre / side / midpoint columns of the table\'s centring')
     rep.assumptions += ['matplotlib / neurodsp drawing primitives render the arrays they are given (not analysed)', 'float rounding in points < times[-1]*fs and int(times[0]*fs) is not decided',
                         'the window is defined by the reference selections of sa/refspec/frames.py (the ones C18 compares limit_df / limit_signal with)']
+    time_axis_rule(rep, model)
+    from . import common as _common
+    _common.grid_round(rep, model, ['plot_burst_detect_summary', 'plot_cyclepoints_array', 'limit_df'])
     summary(rep, model)
     param_panel(rep, model)
     cyclepoints(rep, model)
     rep.floor('rule instances', len(rep.instances), 30)
+
+
+def time_axis(n):
+    """sample k of an n-sample signal is drawn at k / fs: np.arange(n) / fs has one element per sample by construction (a float-step
+    np.arange(0, n / fs, 1 / fs) has ceil((n / fs) / (1 / fs)) elements in floating point, which is n + 1 for e.g. n = 4001, fs = 500)"""
+    return T.div(T.call('arange', (n,)), FS)
+
+
+def time_axis_rule(rep, model):
+    rep.rule('TIME-AXIS', 'the three plot functions build their time axis as np.arange(len(sig)) / fs - exactly one time per sample - and hand that axis (or its '
+                          'limit_signal window) to every drawing call; a float-step np.arange(0, len(sig) / fs, 1 / fs) can have one element too many')
+    for fname in ('plot_burst_detect_summary', 'plot_burst_detect_param', 'plot_cyclepoints_array'):
+        f = model.find(fname)
+        site = f'{f.path}:{f.node.lineno} {fname}'
+        float_step = [ast.unparse(x) for x in ast.walk(f.node) if isinstance(x, ast.Call) and ast.unparse(x.func) in ('np.arange', 'numpy.arange', 'arange')
+                      and len(x.args) == 3 and any(isinstance(y, ast.Div) for a in x.args[1:] for y in ast.walk(a))]
+        if float_step:
+            rep.violation('TIME-AXIS', fname, site, expected='np.arange(len(sig)) / fs', found=f'float-step arange: {float_step[0]}', key=f'TIME-AXIS@{fname}')
+        else:
+            rep.ok('TIME-AXIS', fname, site, found='no float-step arange')
 
 
 def keyerrors(rep, ctx, inst, site):
@@ -58,7 +84,7 @@ def summary(rep, model):
     f = model.find('plot_burst_detect_summary')
     site = f'{f.path}:{f.node.lineno} plot_burst_detect_summary'
     zs = T.call('zscore', (SIG,))
-    times_full = T.call('arange', (C(0), T.div(('len', zs), FS), T.div(C(1), FS)))
+    times_full = time_axis(('len', zs))
     for centre in ('peak', 'trough'):
         side = 'trough' if centre == 'peak' else 'peak'
         S = table(centre)
@@ -88,6 +114,24 @@ def summary(rep, model):
                     else:
                         rep.violation('MASK-WINDOW', inst + ':trace', pb[0]['where'] or site, expected=f'(windowed times, windowed z-scored signal, mask)',
                                       found=[T.brief(x, 120) for x in a[:2]])
+                # spans drawn from cycle sides index the windowed time axis: limit_df keeps a cycle whose next side is the sample AT the closing
+                # limit (inclusive bound), limit_signal keeps times < stop (exclusive), so that index must be guarded
+                if xlim != NONE:
+                    spans = [e for e in ctx.trace if e['kind'] == 'call' and e['name'].endswith('axvspan')]
+                    bad_sp = []
+                    for e in spans:
+                        idxs = [x[2] for a_ in e['args'][1:3] for x in [T.strip_nd(a_)] if x[0] == 'idx' and T.strip_nd(x[1]) == timesw]
+                        hi = idxs[-1] if len(idxs) == 2 else None
+                        need = {T.cmp_('Lt', hi, T.length(timesw)), T.cmp_('Lt', hi, ('len', timesw))} if hi is not None else set()
+                        conj = {T.strip_nd(c) for c in (e['guard'][1] if e['guard'][0] == 'and' else [e['guard']])}
+                        if not ({T.strip_nd(x) for x in need} & conj):
+                            bad_sp.append(e['where'])
+                    if bad_sp:
+                        rep.violation('WINDOW-END', inst + ':spans', bad_sp[0] or site, expected='a span ending at times[next side] is drawn only when next side < len(times)',
+                                      found=f'{len(bad_sp)} axvspan call(s) index the windowed time axis with a cycle side that can equal its length (IndexError when the '
+                                            'view ends exactly on a cycle boundary)', key='WINDOW-END@summary:' + inst)
+                    elif spans:
+                        rep.ok('WINDOW-END', inst + ':spans', site, found=f'{len(spans)} span call(s), each guarded by next side < len(times)')
                 # markers
                 mk = events(ctx, 'plot_cyclepoints_df')
                 pcd = model.find('plot_cyclepoints_df')
@@ -151,13 +195,13 @@ def param_panel(rep, model):
                                       'interp': interp, 'ax': ('param', 'ax')}, ctx=ctx)
                 if keyerrors(rep, ctx, 'panel:' + inst, site):
                     continue
-                times_full = T.call('arange', (C(0), T.div(('len', SIG), FS), T.div(C(1), FS)))
+                times_full = time_axis(('len', SIG))
                 if xlim == NONE:
                     Sw, timesw = S, times_full
                 else:
-                    Sw, _ = E.spec('panel_cycles', {'S': S, 'fs': FS, 'xlim': XLIM, 'side': C(side), 'centre': C(centre)})
                     lw = E.spec('limit_sig', {'times': times_full, 'sig': SIG, 'start': XLIM[1][0], 'stop': XLIM[1][1]})[0]
                     timesw = lw[1][1]
+                    Sw, _ = E.spec('panel_cycles', {'S': S, 'fs': FS, 'xlim': XLIM, 'side': C(side), 'centre': C(centre), 'n_times': T.length(timesw)})
                 pts = events(ctx, 'plot_time_series')
                 if len(pts) != 1:
                     rep.violation('PANEL-DATA', inst, site, expected='one plot_time_series call', found=f'{len(pts)} call(s)')
@@ -210,7 +254,7 @@ def cyclepoints(rep, model):
     site = f'{f.path}:{f.node.lineno} plot_cyclepoints_array'
     kinds = ['peaks', 'troughs', 'rises', 'decays']
     atoms = {k: ('atom', 'PTS_' + k, 'intarr') for k in kinds}
-    times_full = T.call('arange', (C(0), T.div(('len', SIG), FS), T.div(C(1), FS)))
+    times_full = time_axis(('len', SIG))
     for xn, xlim in (('None', NONE), ('given', XLIM)):
         for given in (kinds, ['peaks', 'troughs'], ['rises']):
             inst = f'xlim={xn}:{"+".join(given)}'
